@@ -71,6 +71,36 @@ def knotsOk : List (Rat × V3) → Bool
   | a :: b :: rest => decide (a.1 < b.1) && knotsOk (b :: rest)
   | _ => true
 
+def absR (x : Rat) : Rat := if x < 0 then -x else x
+
+def witnessOk (s : Rat) (d : V3) (eps : Rat) : Bool := s > 0 && absR (s * s - V3.dot d d) ≤ eps * (1 + V3.dot d d)
+
+/-- `CurveClamp.function([t])` on a `CircleCurve`: `f.rotate(rim, t, normal, origin)` at the rationally parametrised
+    angle `t = 2·atan2(|μ n|, w)` — the rim point turned about the axis through the origin -/
+def curveCircle (o rim n : V3) (w mu : Rat) : V3 := rotP w (V3.smul mu n) o rim
+
+/-- running sums `[acc + l0, acc + l0 + l1, …]` (`np.cumsum`) -/
+def cumul : Rat → List Rat → List Rat
+  | _, [] => []
+  | acc, l :: ls => (acc + l) :: cumul (acc + l) ls
+
+def sumR : List Rat → Rat
+  | [] => 0
+  | l :: ls => l + sumR ls
+
+/-- `InterpolatorBase.params` with `equalize`: `concatenate(([0], cumsum(lengths) / lengths[-1]))`, the segment lengths
+    `|p[i+1] − p[i]|` entering as witnesses -/
+def chordParams (lens : List Rat) : List Rat := 0 :: (cumul 0 lens).map (· / sumR lens)
+
+/-- the witnesses are the segment lengths of the polyline through `pts` (relative tolerance `eps`), all positive -/
+def lensOk (eps : Rat) : List V3 → List Rat → Bool
+  | p :: q :: rest, l :: ls => witnessOk l (q - p) eps && lensOk eps (q :: rest) ls
+  | [_], [] => true
+  | _, _ => false
+
+/-- the knots of a `LinearInterpolatedCurve` through `pts` -/
+def chordKnots (pts : List V3) (lens : List Rat) : List (Rat × V3) := (chordParams lens).zip pts
+
 /-- `ParametricSurfaceClamp.function([u, v])` for a plane `o + u·a + v·b` -/
 def surfPlane (o a b : V3) (u v : Rat) : V3 := o + V3.smul u a + V3.smul v b
 
@@ -133,7 +163,6 @@ def gridUpdate (links : List (Nat × (V3 → V3))) (li : Nat) (p : V3) (pts : Li
 /-- radius vector of `p` about the axis `(o, a)`, times `|a|²` (no division): `|a|²(p − o) − ((p − o)·a) a` -/
 def radial (a o p : V3) : V3 := V3.smul (V3.dot a a) (p - o) - V3.smul (V3.dot (p - o) a) a
 
-def absR (x : Rat) : Rat := if x < 0 then -x else x
 
 /-- "the follower `f1` is the original follower `f0` turned about the axis by the angle the leader turned":
     same height, same radius, and the (cos, sin) of the turn — cross-multiplied by the squared radii — agree.
@@ -155,7 +184,6 @@ def rotValid (a o l0 l1 f0 f1 : V3) (eps : Rat) : Option String :=
 
 /-! ### line protocol -/
 
-def witnessOk (s : Rat) (d : V3) (eps : Rat) : Bool := s > 0 && absR (s * s - V3.dot d d) ≤ eps * (1 + V3.dot d d)
 
 def parseKnots : List String → Option (List (Rat × V3))
   | k :: p :: rest => do
@@ -205,6 +233,20 @@ def handle (op : String) (args : List String) : Option String :=
       let ks ← parseKnots knots
       if !knotsOk ks then some "bad-knots" else
       some (match polyEval ks t with | some p => p.toStr | none => "out-of-range")
+  | "c17.curvecircle", [o, rim, n, w, mu] => do
+      let o ← parseV3? o; let rim ← parseV3? rim; let n ← parseV3? n; let w ← parseRat? w; let mu ← parseRat? mu
+      if w * w + V3.dot (V3.smul mu n) (V3.smul mu n) == 0 then some "degenerate" else
+      some (curveCircle o rim n w mu).toStr
+  | "c17.chord", t :: n :: rest => do
+      -- `c17.chord <t> <n> <p0 … p(n-1)> <l0 … l(n-2)>`: parameters by chord length computed here; answers the knot
+      -- parameters and the position at t
+      let t ← parseRat? t; let n ← parseNat? n
+      if rest.length ≠ n + (n - 1) then none else
+      let pts ← (rest.take n).mapM parseV3?
+      let lens ← (rest.drop n).mapM parseRat?
+      if !lensOk (1 / 1000000000) pts lens then some "bad-witness" else
+      let ks := chordKnots pts lens
+      some (showRatList (ks.map Prod.fst) ++ " " ++ (match polyEval ks t with | some p => p.toStr | none => "out-of-range"))
   | "c17.surfplane", [o, a, b, u, v] => do
       let o ← parseV3? o; let a ← parseV3? a; let b ← parseV3? b; let u ← parseRat? u; let v ← parseRat? v
       some (surfPlane o a b u v).toStr
